@@ -6,7 +6,7 @@ _REGISTRY = {}
 
 
 def get(pid):
-    from . import cal, misc, ival, reg, rules  # noqa: F401  (registration side effects)
+    from . import cal, misc, ival, reg, rules, locks  # noqa: F401  (registration side effects)
     return _REGISTRY.get(pid)
 
 
